@@ -35,8 +35,11 @@ type mplexScn struct {
 		Units int  `json:"units"`
 		Run   int  `json:"run"`   // runs: this many info/empty frames before each data frame
 		Empty bool `json:"empty"` // runs: empty data frames instead of info frames
-		First int  `json:"first"` // runs: only before the first N data frames (0: all)
-		ErrAt int  `json:"errat"` // errat: inject an error frame at this logical stream offset
+		// InfoText: what the info frames of a run carry: "" = a line of text; "EMPTY" = nothing at all (a frame of
+		// length 0); "NONL" = text without a newline; "NL" = a newline only
+		InfoText string `json:"infotext"`
+		First    int    `json:"first"` // runs: only before the first N data frames (0: all)
+		ErrAt    int    `json:"errat"` // errat: inject an error frame at this logical stream offset
 		// FromEnd > 0: ... counted back from the END of the stream (the last phase marker, the statistics)
 		FromEnd int `json:"fromend"`
 	} `json:"framing"`
@@ -143,7 +146,16 @@ func (r *reframer) feed(p []byte) error {
 					if f.Empty {
 						err = r.frame(wirekit.TagData, nil)
 					} else {
-						err = r.frame(wirekit.TagInfo, []byte(fmt.Sprintf("info %d\n", i)))
+						text := []byte(fmt.Sprintf("info %d\n", i))
+						switch f.InfoText {
+						case "EMPTY":
+							text = nil
+						case "NONL":
+							text = []byte("x")
+						case "NL":
+							text = []byte("\n")
+						}
+						err = r.frame(wirekit.TagInfo, text)
 					}
 					if err != nil {
 						return err
@@ -194,7 +206,11 @@ func (r *reframer) feed(p []byte) error {
 						return err
 					}
 				case st.Tag == 2:
-					if err := r.frame(wirekit.TagInfo, []byte("interleaved info\n")); err != nil {
+					text := []byte("interleaved info\n")
+					if st.Len == 0 {
+						text = nil // an informational frame of length 0
+					}
+					if err := r.frame(wirekit.TagInfo, text); err != nil {
 						return err
 					}
 				case st.Tag == 1:
